@@ -18,3 +18,18 @@ Theorem C20_roundtrip_served : forall rs m u r, wf_table rs -> m <> NF -> In r r
   matchT (rt_toks r) u -> is_found (dispatch (build rs) m u).
 Proof. exact instance_complete. Qed.
 Print Assumptions C20_roundtrip_served.
+
+From Coq Require Import ZArith.
+From Echo Require Import Base.Sx Base.GoLoop Gen.Src_reverse Router.ReverseSrc.
+(* the SOURCE of Router.Reverse (translated from router.go on every run, Gen/Src_reverse.v): for every route list, name and
+   value list it writes exactly [reverse] of the pattern of the first route registered under that name - nothing if there is
+   none - and never runs out of the fuel the translation gave its two byte loops *)
+Theorem C20_source_reverse : forall (routes : list (str * str)) (name : str) (vals : list str),
+  let '(st', ret) := GoLoop.run rsym rpred src_reverse_results src_reverse (start routes name vals) in
+  written (events st') =
+    match find (fun r => Sx.str_eqb (fst r) name) routes with
+    | Some r => reverse (S (List.length (snd r))) (snd r) vals
+    | None => []
+    end /\ ret = [VZ 0%Z].
+Proof. exact ReverseSrc.C20_source_reverse. Qed.
+Print Assumptions C20_source_reverse.
